@@ -270,6 +270,21 @@ class Writer(Suite):
         out.append({"items": base, "close": True, "aclose_raises": True})
         out.append({"items": [], "close": True, "aclose_raises": True})
         out.append({"items": base, "close": True, "late_send_json": base[0]})
+        # VALUES AT THE EDGE OF THE ENCODERS' DOMAINS (the fast encoder refuses them, the stdlib one writes them): inside plain
+        # dicts (result, params, as a member name), typed messages and pre-serialised strings, each between good messages
+        for name, v in O.edge_values().items():
+            ds = [{"k": "dict", "v": {"jsonrpc": "2.0", "id": 7, "result": v}}, {"k": "dict", "v": {"jsonrpc": "2.0", "method": "m", "params": v}},
+                  {"k": "dict", "v": {"jsonrpc": "2.0", "id": 8, "error": {"code": -1, "message": "m", "data": v}}}]
+            for d in ds:
+                out.append({"items": [base[0], d, base[1], dict(d, repeat=2), base[2]], "close": True, "edge": name})
+            out.append({"items": [ds[0], dict(ds[1], via="send_json"), base[0]], "close": True, "edge": name, "api": "transport"})
+            if "key" not in name:
+                ts = [{"k": "typed", "cls": "response", "f": {"id": 7, "result": v}, "edge": True},
+                      {"k": "typed", "cls": "request", "f": {"id": 7, "method": "m", "params": v}, "edge": True}]
+                for t in ts:
+                    out.append({"items": [base[0], t, base[1], ds[0], base[2]], "close": True, "edge": name})
+            raw = json.dumps({"jsonrpc": "2.0", "id": 9, "result": v}, separators=(",", ":"))  # ASCII text, escapes inside
+            out.append({"items": [base[0], {"k": "raw", "s": raw}, base[2], ds[0]], "close": True, "edge": name})
         # a SECOND and a THIRD connection on the same client / transport object after a first one that ended in every way: the
         # consumer closed its write stream mid-session, left without closing it, the child closed its stdin, a write failed,
         # closing the pipe failed, the last thing sent was unserialisable
@@ -339,8 +354,8 @@ class Writer(Suite):
 
     # ------------------------------------------------------------------ model
     def model_line(self, case, obs):
-        if "harness_error" in obs:
-            return None
+        if "harness_error" in obs or case.get("edge"):
+            return None  # (lone surrogates are outside the model's strings - Lean `Char` is a Unicode scalar value: oracle only)
         want = O.expected_lines(case["items"])
         failed = set(obs.get("failed_sends", []))
         # objects outside the three accepted shapes ("other"): whether the writer sends them is not the property's
